@@ -110,12 +110,12 @@ def tags_of(beh):
     return frozenset(t)
 
 
-def select(behaviours, budget, seed, per_tag=2):
+def select(behaviours, budget, seed, per_tag=2, tagger=None):
     """coverage first (shortest behaviours per tag vector), then a seeded uniform sample"""
     rnd = random.Random(seed)
     by_tag = {}
     for b in behaviours:
-        by_tag.setdefault(tags_of(b), []).append(b)
+        by_tag.setdefault((tagger or tags_of)(b), []).append(b)
     chosen = []
     chosen_ids = set()
     keys = sorted(by_tag, key=lambda k: (len(k), sorted(k)))
@@ -144,14 +144,16 @@ def _replay_one(args):
         return None, {"run": run_id}, "%s\n%s" % (e, traceback.format_exc())
 
 
-def replay_many(gitai, jobs_list, procs=14):
+def replay_many(gitai, jobs_list, procs=14, executor=None):
     """jobs_list = [(cfg, behaviour, run_id)] -> list of (events, info, err) in order"""
     os.makedirs(SCRATCH, exist_ok=True)
     with multiprocessing.Pool(procs) as pool:
+        if executor is not None:
+            return pool.map(executor, [(gitai, SCRATCH, c, b, r) for c, b, r in jobs_list], chunksize=2)
         return pool.map(_replay_one, [(gitai, c, b, r) for c, b, r in jobs_list], chunksize=4)
 
 
-def validate(consts, results, workdir, chunk=400):
+def validate(consts, results, workdir, chunk=400, module="MC_Core.tla", const_keys=None, end_event=None):
     """results: list of (events, info, err).  Returns list of per-run dicts {run, viol, drift, taint} in order,
     plus the TLC results.  Runs with a harness error are skipped (reported separately)."""
     out = []
@@ -162,9 +164,11 @@ def validate(consts, results, workdir, chunk=400):
         events = []
         for ev, info in part:
             events += ev
-        events.append({"ev": "reset", "run": "end", "init": consts.get("InitKind", "base"), "storage": "notes"})
+        events.append(end_event or {"ev": "reset", "run": "end", "init": consts.get("InitKind", "base"),
+                                    "storage": "notes"})
         tc = dict(consts, MaxUid=max(64, consts.get("MaxUid", 0)), MaxLines=1000, MaxSteps=1000)
-        res, runs = tlc.validate_trace(tc, events, os.path.join(workdir, "trace%d" % (ci // chunk)))
+        res, runs = tlc.validate_trace(tc, events, os.path.join(workdir, "trace%d" % (ci // chunk)), module=module,
+                                       const_keys=const_keys)
         tlc_results.append(res)
         if not res["accepted"] or len(runs) != len(part) + 1:
             res["accepted"] = False
